@@ -255,7 +255,7 @@ def run(chk):
             chk.part('replay_' + cfgname, sequences_replayed=total)
             os.remove(res.dump_path)
     # reversal-only sequences (every interior sample a reversal) over -3..3 up to 8 (9) samples: the same invariants, deeper HCM memory;
-    # quick replays a fixed twentieth of the sequences with at least 7 samples, thorough a quarter (TLC checks the invariants on all of them)
+    # quick replays a fixed twentieth of the sequences with at least 7 samples, thorough an eighth (TLC checks the invariants on all of them)
     cfgname = 'MC_HCM_rev_quick.cfg' if quick else 'MC_HCM_rev_thorough.cfg'
     res = tlc.run(TLA, os.path.join(SPEC, 'hcm', cfgname), dump=True, timeout=3000, heap='12g')
     chk.tlc(cfgname, res, 'strictly alternating load sequences over -3..3; SecondPass = Periodic, Memory3, counters')
@@ -273,7 +273,7 @@ def run(chk):
                 ln = b[i:b.find('>>', i)].count(',') + 1 if i >= 0 else 0
                 if ln >= 7:
                     k += 1
-                    if k % (20 if quick else 4) == chk.seed % (20 if quick else 4):
+                    if k % (20 if quick else 8) == chk.seed % (20 if quick else 8):
                         keep.append(b)
             sel.append(keep)
         total = 0
